@@ -212,7 +212,7 @@ func c03Apply(p *core.Program, r *core.Report, fn *ssa.Function) {
 	nMutSites := map[ssa.Instruction]bool{}
 	rules := core.PathRules{
 		LoopBound: 2,
-		OnBranch: func(s *core.PathState, cond ssa.Value) core.AB { return lenFact(s, cond) },
+		OnBranch:  func(s *core.PathState, cond ssa.Value) core.AB { return lenFact(s, cond) },
 		OnCall: func(s *core.PathState, c ssa.CallInstruction) []core.CallOutcome {
 			cc := c.Common()
 			if b, ok := cc.Value.(*ssa.Builtin); ok && b.Name() == "append" && len(cc.Args) > 0 {
@@ -852,7 +852,6 @@ func c03ReevalLists(p *core.Program, r *core.Report, fn *ssa.Function) {
 	}
 }
 
-
 // sliceRoot: the unique empty MakeSlice a local slice value grows from (through phis and appends), or nil.
 func sliceRoot(v ssa.Value) *ssa.MakeSlice {
 	var root *ssa.MakeSlice
@@ -954,7 +953,6 @@ func lenFact(s *core.PathState, cond ssa.Value) core.AB {
 	}
 	return core.Unk
 }
-
 
 // instrReaches: there is a control-flow path on which a executes and b executes later.
 func instrReaches(a, b ssa.Instruction) bool {
